@@ -78,9 +78,12 @@ Definition write_excel_ledger (owns : bool) (n_tables : nat) (fail_at : option n
 
 (* ---------- load_files over several locations ---------- *)
 (* queued_load reads one location at a time ('yield from reader.read(...)'): the next file is opened
-   only after the previous reader is exhausted (and has closed its file); an error raised by a block
-   ends the whole load; closing or dropping the loader closes the reader it is suspended in.
-   State: the readers not yet exhausted (the head is the current one) and the current one's state. *)
+   only after the previous reader is exhausted (and has closed its file); with the default (raising)
+   issue tracker an error raised by a block ends the whole load; closing or dropping the loader closes
+   the reader it is suspended in.
+   State: the readers not yet exhausted IN READING ORDER (the head is the current one; the work queue
+   is popped from its end, so this is the reverse of the order of the root items) and the current
+   one's state.  load_files takes path specifications only: every reader of such a list owns its file. *)
 Fixpoint lnext (rs : list reader) (s : gstate) (l : ledger) : list reader * gstate * ledger * outcome :=
   match rs with
   | [] => ([], Finished, l, Stopped)
